@@ -14,10 +14,14 @@ mod c07;
 mod c09;
 mod c10;
 mod c11;
+mod c12;
+mod c13;
 mod tree;
 mod c14;
 mod c15;
 mod c16;
+mod c17;
+mod c20;
 mod stk;
 
 use serde_json::{json, Value};
@@ -47,9 +51,13 @@ fn scenarios(prop: &str, tier: &str) -> Vec<Scenario> {
         "C09" => c09::scenarios(tier),
         "C10" => c10::scenarios(tier),
         "C11" => c11::scenarios(tier),
+        "C12" => c12::scenarios(tier),
+        "C13" => c13::scenarios(tier),
         "C14" => c14::scenarios(tier),
         "C15" => c15::scenarios(tier),
         "C16" => c16::scenarios(tier),
+        "C17" => c17::scenarios(tier),
+        "C20" => c20::scenarios(tier),
         _ => vec![],
     }
 }
